@@ -389,6 +389,14 @@ impl RunCtx {
                 return (Stats::from_json(&v["stats"]), Failure::from_json(&v["failure"]));
             }
         }
+        if code == Some(2) {
+            // the child's watchdog (or another inconclusive condition) fired: not a violation
+            for l in out.lines().filter(|l| l.starts_with("INCONCLUSIVE")) {
+                println!("{}", l);
+            }
+            println!("INCONCLUSIVE property={} a child process of phase `{}` (shard {}) ended inconclusively (not a violation)", self.prop, phase, shard);
+            std::process::exit(2);
+        }
         // the child died without a result: find the input it was working on
         let dir = self.verif_dir.join(".work/trace");
         let _ = std::fs::create_dir_all(&dir);
@@ -450,7 +458,7 @@ impl RunCtx {
                 }
             }
             let mut scratch = Stats::default();
-            self.wd_enter(slot, || format!("phase={} tape={}", phase, hex(&tape)));
+            self.wd_enter(slot, || format!("phase={} tape={} (evaluate it with `dlv tape <ID> <phase> <file holding these bytes>`)", phase, hex_full(&tape)));
             let r = {
                 let mut st = stats.borrow_mut();
                 let target: &mut Stats = if counting { &mut st } else { &mut scratch };
@@ -801,6 +809,21 @@ pub fn run_property(def: &PropDef, tier: Tier, seed: u64, verif_dir: PathBuf) ->
     // 2. committed regression seeds
     let corpus = verif_dir.join("corpus").join(def.id);
     let mut regress = 0;
+    // replay files produced by the coverage-guided stage of this same run (fuzzer artifacts that
+    // `dlv tape` turned into concrete inputs)
+    if let Ok(extra) = std::env::var("VERIF_EXTRA_REPLAYS") {
+        for p in extra.split(':').filter(|p| !p.is_empty()) {
+            let p = PathBuf::from(p);
+            let Ok(text) = std::fs::read_to_string(&p) else { continue };
+            let Ok(v) = serde_json::from_str::<Value>(&text) else { continue };
+            let r = catch(|| (def.replay)(&v)).unwrap_or_else(|p| Err(format!("harness panic in replay: {}", p)));
+            if let Err(msg) = r {
+                println!("VIOLATION property={} replay={}", def.id, p.display());
+                println!("  found by the coverage-guided stage: {}", first_line(&msg));
+                violations += 1;
+            }
+        }
+    }
     if let Ok(rd) = std::fs::read_dir(&corpus) {
         let mut files: Vec<_> = rd.filter_map(|e| e.ok()).map(|e| e.path()).filter(|p| p.extension().map(|e| e == "json").unwrap_or(false)).collect();
         files.sort();
@@ -866,6 +889,7 @@ pub fn run_property(def: &PropDef, tier: Tier, seed: u64, verif_dir: PathBuf) ->
             "regression_seeds_replayed": regress,
             "notes": *ctx.notes.lock().unwrap(),
             "threads": ctx.threads,
+            "coverage_guided_stage": std::env::var("VERIF_FUZZ_SUMMARY").ok().and_then(|s| serde_json::from_str::<Value>(&s).ok()).unwrap_or(Value::Null),
         },
         "assumptions": def.assumptions,
         "wall_s": wall,
@@ -936,7 +960,7 @@ pub fn run_tape_file(def: &PropDef, verif_dir: PathBuf, phase: &str, file: &Path
                 }
             }
             let p = write_replay(&ctx, &f);
-            println!("VIOLATION property={} replay={}", def.id, p.display());
+            println!("TAPE-FAILURE property={} replay={}", def.id, p.display());
             for l in f.message.lines().take(40) {
                 println!("  {}", l);
             }
